@@ -150,7 +150,7 @@ func runCoalesce(t *testing.T, c CoalesceCase) (v *h.Violation, info h.Info) {
 var c11coalesce = &h.Campaign[CoalesceCase]{
 	Prop: "C11", Sub: "coalesce",
 	Rule: "rapid + synctest: k (1-6) polls - explicit Refresh calls and, in half the cases, one poll of the store's own background poller - started within the first request of a poll whose requests each take a generated time; the service must see exactly one conditional get per known name and every caller must see the new values; non-trivial = k >= 2; distinct by scenario",
-	Quick: 600, Thorough: 30000,
+	Quick: 600, Thorough: 200000,
 	Gen: func(rt *rapid.T) CoalesceCase {
 		d := rapid.SampledFrom([]int{5, 50, 1000}).Draw(rt, "delay")
 		return CoalesceCase{
@@ -219,7 +219,7 @@ func runCadence(t *testing.T, c CadenceCase) (v *h.Violation, info h.Info) {
 var c11cadence = &h.Campaign[CadenceCase]{
 	Prop: "C11", Sub: "cadence",
 	Rule: "rapid + synctest: the store's own ticker under virtual time for generated intervals (20 ms - 3 h) and 2-8 polls; poll instants must be t0 + k*p with one p in [0.9*I, 1.1*I]; every case is non-trivial; distinct by (interval, polls)",
-	Quick: 300, Thorough: 20000,
+	Quick: 300, Thorough: 100000,
 	Gen: func(rt *rapid.T) CadenceCase {
 		return CadenceCase{IntervalMs: rapid.OneOf(rapid.IntRange(20, 5000), rapid.IntRange(5000, 10800000)).Draw(rt, "interval"), Polls: rapid.IntRange(2, 8).Draw(rt, "polls")}
 	},
